@@ -587,3 +587,311 @@ c10_branch!(c10_branch_me, h_message, h_run_ended);
 c10_branch!(c10_branch_sm, h_run_spawned, h_message);
 c10_branch!(c10t_branch_se, h_run_spawned, h_run_ended);
 c10_branch!(c10t_branch_em, h_run_ended, h_message);
+
+// ---------------------------------------------------------------------------------------------------------
+// C01 / C05: one append step of the real append_* functions right after an authority restart
+// (in-memory next-seq table empty => next seq recovered by load_next_seq_for from sidecar tail or truth replay).
+//   effect order  : truth log line  <  sidecar line  <  broadcast        (a crash between two effects = a prefix)
+//   lock          : the next-seq mutex is held at every one of these effects (asserted INSIDE the stubs)
+//   numbering     : the appended frame carries last-truth-seq + 1 and the stream id of the thread
+// Truth history: [created@0, message@1]  (T = 1).  Sidecar tail answer (shape constant LAG):
+//   in sync: Ok(None) (sidecar missing) or Ok(Some(T));   lagging: Ok(Some(T-1)) -- the state left by a crash (or a
+//   failed best-effort sidecar write) between the truth line and the sidecar line of frame T.
+// ---------------------------------------------------------------------------------------------------------
+#[repr(C)]
+struct StepEnv {
+    hist: *mut Event,
+    hist_len: usize,
+    store: *const ContinuityStore,
+    sidecar_last: u64,
+    sidecar_present: bool,
+    effects: u32,      // global effect counter
+    log_at: u32,       // position of the truth-log effect (1-based, 0 = did not happen)
+    cache_at: u32,
+    send_at: u32,
+    log_seq: u64,
+    log_stream_ok: bool,
+    same_frame: bool,  // cache/broadcast saw the same seq as the log
+}
+fn step_env_of(p: &Path) -> &mut StepEnv {
+    unsafe { &mut *(p.as_os_str().as_encoded_bytes().as_ptr() as *mut StepEnv) }
+}
+fn step_lock_held(env: &StepEnv) -> bool {
+    unsafe { (*env.store).next_seq.try_lock().is_err() }
+}
+fn step_replay(this: &ContinuityStore, _id: &str) -> io::Result<Vec<Event>> {
+    let env = step_env_of(&this.data_dir);
+    Ok(unsafe { alias_vec(env.hist, env.hist_len) })
+}
+fn step_last_seq(this: &ContinuityStreamCache, _id: &str) -> io::Result<Option<u64>> {
+    let env = step_env_of(crate::continuity_stream_cache::verif_kani::kani_cache_dir(this));
+    if env.sidecar_present {
+        Ok(Some(env.sidecar_last))
+    } else {
+        Ok(None)
+    }
+}
+fn step_log_append(this: &EventLog, event: &Event) -> io::Result<()> {
+    let env = step_env_of(rip_log::verif_kani::kani_event_log_path(this));
+    assert!(step_lock_held(env), "truth log written without holding the next-seq lock");
+    env.effects += 1;
+    env.log_at = env.effects;
+    env.log_seq = event.seq;
+    env.log_stream_ok = event.session_id.len() == 1 && event.session_id.as_bytes()[0] == b'p';
+    Ok(())
+}
+fn step_cache_append(this: &ContinuityStreamCache, event: &Event) {
+    let env = step_env_of(crate::continuity_stream_cache::verif_kani::kani_cache_dir(this));
+    assert!(step_lock_held(env), "sidecar written without holding the next-seq lock");
+    env.effects += 1;
+    env.cache_at = env.effects;
+    if event.seq != env.log_seq {
+        env.same_frame = false;
+    }
+}
+// the broadcast stub has no path to the context; it only checks it receives a frame and forgets it
+fn step_send<T>(_this: &broadcast::Sender<T>, value: T) -> Result<usize, broadcast::error::SendError<T>> {
+    core::mem::forget(value);
+    Ok(0)
+}
+
+// NOTE on the append_* critical sections (C01 "lock held from seq choice to log write", C05 effect order): the
+// harness below (c05_append_step) is complete but NOT instantiated. HashMap<String,u64> probing (hashbrown SIMD groups
+// read back from a malloc'ed table) kept it from finishing (measured 700 s and 1200 s). The planned remedy -- a
+// one-entry model map stubbed in for HashMap::get/insert -- failed on the tool: Kani 0.68 accepts the generic `insert`
+// stub but rejects every formulation of the `get` stub (free fn: "Expected type &HashMap<K,V,S,A> ... found
+// &HashMap<K,V,S,A>"; trait method on a generic impl: "unable to find implementation"). Those clauses stay outside.
+macro_rules! c05_append_step {
+    ($name:ident, $lagging:expr, $call:expr) => {
+        #[kani::proof]
+        #[kani::unwind(6)]
+        #[kani::stub(std::fmt::format, stub_fmt_format)]
+        #[kani::stub(std::hash::RandomState::new, stub_random_state_new)]
+        #[kani::stub(uuid::Uuid::new_v4, stub_uuid_v4)]
+        #[kani::stub(now_ms, stub_now_ms_sym)]
+        #[kani::stub(alloc::string::ToString::to_string, stub_to_string_keep_thread)]
+        #[kani::stub(ContinuityStore::replay_events, step_replay)]
+        #[kani::stub(ContinuityStreamCache::try_read_last_seq, step_last_seq)]
+        #[kani::stub(rip_log::EventLog::append, step_log_append)]
+        #[kani::stub(ContinuityStreamCache::append_best_effort, step_cache_append)]
+        #[kani::stub(broadcast::Sender::send, step_send)]
+        fn $name() {
+            let mut hist = core::mem::ManuallyDrop::new([h_created(0), h_message(1, b"a".as_ptr() as *mut u8)]);
+            let t: u64 = 1;
+            let sidecar_present: bool = if $lagging { true } else { kani::any() };
+            let mut env = StepEnv {
+                hist: hist.as_mut_ptr(), hist_len: 2, store: core::ptr::null(),
+                sidecar_last: if $lagging { t - 1 } else { t }, sidecar_present,
+                effects: 0, log_at: 0, cache_at: 0, send_at: 0, log_seq: 0, log_stream_ok: false, same_frame: true,
+            };
+            let envp: *mut StepEnv = &mut env;
+            let store = kani_store_env(envp as *mut Env);
+            env.store = &*store as *const ContinuityStore;
+            let f: fn(&ContinuityStore) -> Result<String, String> = $call;
+            let r = f(&store);
+            assert!(r.is_ok(), "append refused on an existing thread");
+            assert!(env.log_at == 1, "the truth-log line is not the first effect of the append");
+            assert!(env.cache_at == 2, "the sidecar line does not directly follow the truth-log line");
+            assert!(env.same_frame, "sidecar received a different frame than the truth log");
+            assert!(env.log_stream_ok, "frame appended under another stream id");
+            assert!(env.log_seq == t + 1, "first append after restart does not continue the numbering (duplicate or gap)");
+            kani::cover!(!env.sidecar_present, "next seq recovered from truth replay");
+            kani::cover!(env.sidecar_present, "next seq recovered from the sidecar tail");
+            core::mem::forget(r);
+        }
+    };
+}
+// `x.to_string()` keeps the thread id "p" (it keys the next-seq table and becomes the frame's stream id); every other
+// formatted string (uuids, error texts) is irrelevant here and becomes empty.
+fn stub_to_string_keep_thread<T: core::fmt::Display + ?Sized>(t: &T) -> String {
+    if core::mem::size_of_val(t) == 1 {
+        // a 1-byte str: the thread id
+        let p = t as *const T as *const u8;
+        let mut s = String::with_capacity(1);
+        s.push(unsafe { *p } as char);
+        s
+    } else {
+        String::new()
+    }
+}
+
+// (not instantiated, see the note above)
+// c05_append_step!(c05_append_message_insync, false, |s| s.append_message("p", lit("u"), lit("o"), lit("x")));
+
+// C05 recovery obligation on the real next-seq discovery: after a restart the next seq of a thread must be
+// last-truth-seq + 1 whatever state the sidecar was left in. Truth: [created@s0, message@s1], seqs symbolic increasing.
+macro_rules! c05_next_seq {
+    ($name:ident, $lagging:expr) => {
+        #[kani::proof]
+        #[kani::unwind(6)]
+        #[kani::stub(std::fmt::format, stub_fmt_format)]
+        #[kani::stub(std::hash::RandomState::new, stub_random_state_new)]
+        #[kani::stub(ContinuityStore::replay_events, step_replay)]
+        #[kani::stub(ContinuityStreamCache::try_read_last_seq, step_last_seq)]
+        fn $name() {
+            let s0: u64 = kani::any();
+            let t: u64 = kani::any();
+            kani::assume(s0 < t && t < u64::MAX);
+            let mut hist = core::mem::ManuallyDrop::new([h_created(s0), h_message(t, b"a".as_ptr() as *mut u8)]);
+            let sidecar_present: bool = if $lagging { true } else { kani::any() };
+            let mut env = StepEnv {
+                hist: hist.as_mut_ptr(), hist_len: 2, store: core::ptr::null(),
+                sidecar_last: if $lagging { t - 1 } else { t }, sidecar_present,
+                effects: 0, log_at: 0, cache_at: 0, send_at: 0, log_seq: 0, log_stream_ok: false, same_frame: true,
+            };
+            let envp: *mut StepEnv = &mut env;
+            let store = kani_store_env(envp as *mut Env);
+            let next = match store.load_next_seq_for("p") {
+                Ok(n) => n,
+                Err(e) => {
+                    core::mem::forget(e);
+                    assert!(false, "next seq of an existing thread not recovered");
+                    0
+                }
+            };
+            assert!(next == t + 1, "next seq after restart is not last truth seq + 1 (duplicate or gap)");
+            kani::cover!(!env.sidecar_present, "recovered from truth replay");
+            kani::cover!(env.sidecar_present, "recovered from the sidecar tail");
+        }
+    };
+}
+c05_next_seq!(c05_next_seq_insync, false);
+
+// The lagging-sidecar state (truth has frame T, sidecar ends at T-1): left behind by a crash -- or by a failed
+// best-effort sidecar write -- between the truth line and the sidecar line of frame T.
+#[kani::proof]
+#[kani::unwind(6)]
+#[kani::stub(std::fmt::format, stub_fmt_format)]
+#[kani::stub(std::hash::RandomState::new, stub_random_state_new)]
+#[kani::stub(ContinuityStore::replay_events, step_replay)]
+#[kani::stub(ContinuityStreamCache::try_read_last_seq, step_last_seq)]
+fn c05_next_seq_lagging_sidecar() {
+    let s0: u64 = kani::any();
+    let t: u64 = kani::any();
+    kani::assume(s0 < t && t < u64::MAX);
+    let mut hist = core::mem::ManuallyDrop::new([h_created(s0), h_message(t, b"a".as_ptr() as *mut u8)]);
+    let mut env = StepEnv {
+        hist: hist.as_mut_ptr(), hist_len: 2, store: core::ptr::null(),
+        sidecar_last: t - 1, sidecar_present: true,
+        effects: 0, log_at: 0, cache_at: 0, send_at: 0, log_seq: 0, log_stream_ok: false, same_frame: true,
+    };
+    let envp: *mut StepEnv = &mut env;
+    let store = kani_store_env(envp as *mut Env);
+    let next = match store.load_next_seq_for("p") {
+        Ok(n) => n,
+        Err(e) => {
+            core::mem::forget(e);
+            assert!(false, "next seq of an existing thread not recovered");
+            0
+        }
+    };
+    kani::cover!(true, "decided");
+    assert!(next == t + 1, "next seq after restart trusts a sidecar that lags behind the truth log (duplicate seq)");
+}
+
+// ---------------------------------------------------------------------------------------------------------
+// C02: read-only and no-op capabilities never write. The truth log's append is replaced by a stub that fails the
+// harness when reached. The cache layer is ABSENT (every cache query answers "nothing"), so each capability runs its
+// truth-replay path over a real 3-frame history [created, message a, message b] with symbolic increasing seqs.
+// The cut-point instance doubles as C04(c)/C09: the truth path must give the same cut points as the reference.
+// ---------------------------------------------------------------------------------------------------------
+fn c02_log_unreachable(_this: &EventLog, _event: &Event) -> io::Result<()> {
+    assert!(false, "a read-only / no-op capability wrote to the truth log");
+    Ok(())
+}
+fn stub_message_count_absent(_this: &ContinuityStreamCache, _id: &str) -> io::Result<Option<u64>> {
+    Ok(None)
+}
+fn stub_message_by_ordinal_absent(_this: &ContinuityStreamCache, _id: &str, _o: u64) -> io::Result<Option<(u64, String)>> {
+    Ok(None)
+}
+fn stub_last_seq_absent(_this: &ContinuityStreamCache, _id: &str) -> io::Result<Option<u64>> {
+    Ok(None)
+}
+
+macro_rules! c02_readonly {
+    ($name:ident, $body:expr) => {
+        #[kani::proof]
+        #[kani::unwind(6)]
+        #[kani::stub(std::fmt::format, stub_fmt_format)]
+        #[kani::stub(std::hash::RandomState::new, stub_random_state_new)]
+        #[kani::stub(uuid::Uuid::new_v4, stub_uuid_v4)]
+        #[kani::stub(now_ms, stub_now_ms_sym)]
+        #[kani::stub(alloc::string::ToString::to_string, stub_to_string_empty)]
+        #[kani::stub(ContinuityStore::get, stub_get_some)]
+        #[kani::stub(ContinuityStore::replay_events, env_replay)]
+        #[kani::stub(rip_log::EventLog::append, c02_log_unreachable)]
+        #[kani::stub(ContinuityStreamCache::append_best_effort, env_cache_append_noop)]
+        #[kani::stub(broadcast::Sender::send, env_send_noop)]
+        #[kani::stub(ContinuityStreamCache::scan_tail, stub_scan_none)]
+        #[kani::stub(ContinuityStreamCache::message_count_messages_runs_v1, stub_message_count_absent)]
+        #[kani::stub(ContinuityStreamCache::message_by_ordinal_messages_runs_v1, stub_message_by_ordinal_absent)]
+        #[kani::stub(ContinuityStreamCache::latest_compaction_checkpoint_before_or_at_seq_v1, stub_latest_ckpt_none)]
+        #[kani::stub(ContinuityStreamCache::try_read_last_seq, stub_last_seq_absent)]
+        fn $name() {
+            let seqs: [u64; 3] = kani::any();
+            kani::assume(seqs[0] < seqs[1] && seqs[1] < seqs[2]);
+            let mut ids: [u8; 3] = [b'c', b'a', b'b'];
+            let idp = ids.as_mut_ptr();
+            let mut hist = core::mem::ManuallyDrop::new([
+                h_created(seqs[0]),
+                h_message(seqs[1], unsafe { idp.add(1) }),
+                h_message(seqs[2], unsafe { idp.add(2) }),
+            ]);
+            let mut env = Env::new(hist.as_mut_ptr(), 3);
+            let store = kani_store_env(&mut env);
+            let f: fn(&ContinuityStore, &[u64; 3]) = $body;
+            f(&store, &seqs);
+            assert!(env.replays >= 1, "with the cache layer absent the answer must come from truth replay");
+            kani::cover!(true, "decided");
+        }
+    };
+}
+
+c02_readonly!(c02_readonly_cursor_status, |s, _seqs| {
+    let r = s.provider_cursor_status_v1("p", ProviderCursorStatusV1Request {});
+    match &r {
+        Ok(resp) => assert!(resp.active.is_none() && resp.cursors.is_empty(), "cursor reported on a thread without cursor frames"),
+        Err(_) => assert!(false, "status refused on an existing thread"),
+    }
+    core::mem::forget(r);
+});
+c02_readonly!(c02_readonly_cursor_rotate_noop, |s, _seqs| {
+    let r = s.provider_cursor_rotate_v1("p", rotate_req());
+    match &r {
+        Ok(resp) => assert!(!resp.rotated && resp.cursor_event_id.is_none(), "rotation reported although no cursor exists"),
+        Err(_) => assert!(false, "rotate refused on an existing thread"),
+    }
+    core::mem::forget(r);
+});
+c02_readonly!(c02_readonly_selection_status, |s, _seqs| {
+    let limit: Option<u32> = if kani::any() { Some(kani::any()) } else { None };
+    let r = s.context_selection_status_v1("p", ContextSelectionStatusV1Request { limit });
+    match &r {
+        Ok(resp) => assert!(resp.decisions.is_empty(), "selection decision reported on a thread without any"),
+        Err(_) => assert!(false, "status refused on an existing thread"),
+    }
+    core::mem::forget(r);
+});
+c02_readonly!(c02_readonly_cut_points_truth, |s, seqs| {
+    let stride: u64 = kani::any();
+    kani::assume(stride >= 1 && stride <= 3);
+    let r = s.compaction_cut_points_v1("p", CompactionCutPointsV1Request { stride_messages: Some(stride), limit: Some(1) });
+    match &r {
+        Ok(resp) => {
+            // 2 messages: ordinals 1 (seq[1]) and 2 (seq[2]); latest multiple of the stride <= 2
+            assert!(resp.message_count == 2, "message count differs from the truth log");
+            if stride == 3 {
+                assert!(resp.cut_points.is_empty(), "cut point planned beyond the thread");
+            } else {
+                assert!(resp.cut_points.len() == 1, "latest cut point missing");
+                let ord = if stride == 1 { 2 } else { 2 };
+                assert!(resp.cut_points[0].target_message_ordinal == ord, "truth path: wrong ordinal");
+                assert!(resp.cut_points[0].to_seq == seqs[ord as usize], "truth path: cut point seq is not that message's seq");
+                assert!(!resp.cut_points[0].already_checkpointed);
+            }
+        }
+        Err(_) => assert!(false, "cut points refused on an existing thread"),
+    }
+    core::mem::forget(r);
+});
